@@ -112,7 +112,7 @@ def run(case: dict, ctx) -> dict:
                             data_cipher=data_cipher)
     # decoy pairs that do not match the passphrase
     decoys = []
-    for j in range(rng.choice([0, 0, 1, 3])):
+    for j in range(rng.choice([0, 0, 1, 3, 3, 15, 16, 24])):
         dk2 = bytes(rng.randrange(256) for _ in range(ks))
         b2, p2 = w.phrase_pair(rng, phrase + f"-other{j}", dk2, cipher=rng.choice(CIPHERS), mac=rng.choice(MACS), kdf=rng.choice(KDFS),
                                rounds=rng.randrange(1, 50), salt=bytes(rng.randrange(256) for _ in range(16)), ident=f"decoy{j}")
